@@ -326,6 +326,10 @@ class Deriver:
 
     def g_StrFixed(self, spec, ctx, avoid):
         if self._poison_here():
+            if spec._length >= 2 and self.rng.random() < 0.5:
+                # few enough characters, too many bytes once encoded
+                self.poison_desc = "string whose UTF-8 encoding is longer than the fixed field"
+                return "\u00e9" * spec._length
             self.poison_desc = "string longer than the fixed field"
             return "y" * (spec._length + 1)
         return self.rand_text(spec._length, avoid)
